@@ -822,13 +822,20 @@ pub fn main(opts: &Opts, mode: Mode) -> Report {
     for e in &entries {
         for k in 0..per_entry {
             let pages = *rng.pick(&[1usize, 1, 1, 2, 4]);
+            // One case in sixty is long (up to 10-25 capacities of the small stream, untagged):
+            // its one-shot reference run on default-size streams then sees windows of
+            // 10^5 elements, which nothing else in the catalogue does.
+            let long = mode != Mode::C12 && k % 60 == 31;
             let c = Case {
                 entry: e.name.to_string(),
                 seed: rng.next(),
                 stream_bytes: std::cmp::max(e.min_stream, pages * rec::PAGE),
-                tagged: mode == Mode::C12 || (k % 3 == 0),
-                max_len_pct: *rng.pick(&[50usize, 120, 300]),
+                tagged: !long && (mode == Mode::C12 || (k % 3 == 0)),
+                max_len_pct: if long { *rng.pick(&[1000usize, 2500]) } else { *rng.pick(&[50usize, 120, 300]) },
             };
+            if long {
+                rep.count("long_input_cases", 1);
+            }
             rep.eval();
             rep.set("blocks", e.name);
             match catch(|| run_case(&c, mode, &mut rep)) {
